@@ -170,11 +170,15 @@ def Msk.mpk (msk : Msk) : Mpk :=
       | _ => none),
     structure_ := msk.structure_ }
 
+/-- the lookup inside `select_subkeys` -/
+def Mpk.keyOf (mpk : Mpk) (r : Right) : Except Err Sk :=
+  match mpk.keys.lookup r with
+  | none => .error .keyError
+  | some k => .ok k
+
 /-- `MasterPublicKey::select_subkeys` -/
 def Mpk.selectSubkeys (mpk : Mpk) (targets : List Right) : Except Err (Bool × List Sk) :=
-  match mapMExcept (fun r => match mpk.keys.lookup r with
-      | none => Except.error Err.keyError
-      | some k => .ok k) targets with
+  match mapMExcept mpk.keyOf targets with
   | .error e => .error e
   | .ok ks => .ok (ks.all (·.hyb), ks)
 
